@@ -10,6 +10,7 @@ import (
 	"net/url"
 	"strings"
 	"sync"
+	"sync/atomic"
 	"time"
 
 	xh2 "golang.org/x/net/http2"
@@ -283,16 +284,24 @@ type peerSide interface {
 	// closes the stream in a deferred call right after the write)
 	settled(idx int)
 	resetAll()
+	// parked: sender goroutines inside cond.Wait() that no Broadcast has reached (-1: unknown); live: sender goroutines
+	// that have not returned
+	parked() int
+	live() int
 }
 
 // ---- client side: MClientConn sends request bodies
 type clientSide struct {
-	w   *wireLog
-	cc  *mh2.MClientConn
-	ms  []*mh2.MClientStream
-	wg  sync.WaitGroup
-	ctx context.Context
+	w    *wireLog
+	cc   *mh2.MClientConn
+	ms   []*mh2.MClientStream
+	wg   sync.WaitGroup
+	ctx  context.Context
+	nliv int32
 }
+
+func (s *clientSide) parked() int { return s.cc.VerifParkedSenders() }
+func (s *clientSide) live() int   { return int(atomic.LoadInt32(&s.nliv)) }
 
 func newClientSide() *clientSide {
 	w := newWireLog()
@@ -329,8 +338,10 @@ func (s *clientSide) open(idx int, body []byte) error {
 	}
 	s.ms = append(s.ms, ms)
 	s.wg.Add(1)
+	atomic.AddInt32(&s.nliv, 1)
 	go func() {
 		defer s.wg.Done()
+		defer atomic.AddInt32(&s.nliv, -1)
 		hx.Safe(func() { ms.RoundTrip(s.ctx) }) // body, END_STREAM
 	}()
 	return nil
@@ -373,7 +384,11 @@ type serverSide struct {
 	ctx  context.Context
 	henc *xhpack.Encoder
 	hbuf bytes.Buffer
+	nliv int32
 }
+
+func (s *serverSide) parked() int { return s.sc.VerifParkedSenders() }
+func (s *serverSide) live() int   { return int(atomic.LoadInt32(&s.nliv)) }
 
 func newServerSide() *serverSide {
 	w := newWireLog()
@@ -433,8 +448,10 @@ func (s *serverSide) open(idx int, body []byte) error {
 		return err
 	}
 	s.wg.Add(1)
+	atomic.AddInt32(&s.nliv, 1)
 	go func() {
 		defer s.wg.Done()
+		defer atomic.AddInt32(&s.nliv, -1)
 		hx.Safe(func() {
 			if err := ms.WriteData(); err == nil {
 				ms.WriteTrailers()
@@ -575,7 +592,6 @@ func runScript(c *hx.Ctx, side string, evs []peerEv) (string, string) {
 			syncTimeouts++
 			c.Count("peer.sync-timeout")
 		}
-		frames := w.cut()
 		for i := range ref.n {
 			w.mu.Lock()
 			ended := w.ended[uint32(2*i+1)]
@@ -584,6 +600,13 @@ func runScript(c *hx.Ctx, side string, evs []peerEv) (string, string) {
 				ps.settled(i)
 			}
 		}
+		// the next peer frame is fed only when every sender goroutine that has not finished is parked in cond.Wait():
+		// a frame handled while a signalled sender has not yet re-evaluated its guard would hide a wake-up that the
+		// frame itself fails to give (the schedule in which a lost wake-up shows is the one where everybody sleeps)
+		if !connErr {
+			quiesce(c, ps)
+		}
+		frames := w.cut()
 		// account what was actually written
 		w.mu.Lock()
 		var sum int64
@@ -662,6 +685,22 @@ func runScript(c *hx.Ctx, side string, evs []peerEv) (string, string) {
 
 var syncTimeouts int
 
+func quiesce(c *hx.Ctx, ps peerSide) {
+	for k := 0; k < 20000; k++ {
+		p := ps.parked()
+		if p < 0 { // sync.Cond layout not recognised: settle by time
+			time.Sleep(time.Millisecond)
+			c.Count("peer.quiesce-by-sleep")
+			return
+		}
+		if p >= ps.live() {
+			return
+		}
+		time.Sleep(50 * time.Microsecond)
+	}
+	c.Count("peer.quiesce-timeout")
+}
+
 var initWindows = []uint32{0, 1, 16383, 65535, maxI32}
 var frameSizes = []uint32{16384, 16385, 32768, 65536, 1<<24 - 1}
 
@@ -738,6 +777,158 @@ func genScript(c *hx.Ctx, side string) []peerEv {
 		}
 	}
 	return evs
+}
+
+// negSim is the generator's rough account of MOSN's send windows (greedy senders, one stream at a time); it only
+// steers the choice of the next event towards the sign changes of a stream window and is never compared with anything.
+type negSim struct {
+	cn, init int64
+	n, rem   []int64
+}
+
+func (g *negSim) pump() {
+	for i := range g.n {
+		d := minI64(minI64(maxI64(g.n[i], 0), maxI64(g.cn, 0)), g.rem[i])
+		g.n[i] -= d
+		g.rem[i] -= d
+		g.cn -= d
+	}
+}
+
+// genNegScript: scripts in which the peer LOWERS SETTINGS_INITIAL_WINDOW_SIZE while a body is in flight, so that the
+// stream window MOSN keeps goes negative (RFC 7540 6.9.2), and then raises it again — by WINDOW_UPDATE on the stream in
+// one step across zero, in two steps (still negative / exactly zero, then positive), by a larger SETTINGS value, or by
+// both — in generated orders, interleaved with connection-level updates, for 1-2 streams; ends with grants that cover
+// the bodies.  A sender parked on the negative window has to be woken by whichever frame makes it positive.
+func genNegScript(c *hx.Ctx, side string) []peerEv {
+	r := c.Rng
+	g := &negSim{cn: 65535, init: 65535}
+	var evs []peerEv
+	add := func(e peerEv) {
+		evs = append(evs, e)
+		switch e.kind {
+		case 'O':
+			g.n, g.rem = append(g.n, g.init), append(g.rem, int64(e.v))
+		case 'S':
+			if e.i < len(g.n) && (side == "client" || g.rem[e.i] > 0) {
+				g.n[e.i] += int64(e.v)
+			}
+		case 'C':
+			g.cn += int64(e.v)
+		case 'I':
+			d := int64(e.v) - g.init
+			for i := range g.n {
+				if side == "client" || g.rem[i] > 0 {
+					g.n[i] += d
+				}
+			}
+			g.init = int64(e.v)
+		}
+		g.pump()
+	}
+	if r.Intn(5) != 0 { // usually a roomy connection window: only the stream windows block
+		add(peerEv{kind: 'C', v: uint32(100000 + r.Intn(900000))})
+	}
+	iw := []uint32{65535, 65535, 16384, 30000, 100000, 1}[r.Intn(6)]
+	if iw != 65535 || r.Intn(2) == 0 {
+		add(peerEv{kind: 'I', v: iw})
+	}
+	nstreams := 1
+	if r.Intn(4) == 0 {
+		nstreams = 2
+	}
+	for k := 0; k < nstreams; k++ {
+		add(peerEv{kind: 'O', v: uint32(int(iw) + 1 + r.Intn(150000))})
+	}
+	nev := 3 + r.Intn(8)
+	for k := 0; k < nev; k++ {
+		i := r.Intn(len(g.n))
+		neg := g.n[i] < 0
+		switch x := r.Intn(100); {
+		case !neg && g.init > 0 && (x < 70 || k == 0):
+			// lower the initial window mid-body
+			low := []int64{0, 1, 100, g.init / 2, g.init - 1}[r.Intn(5)]
+			if r.Intn(3) == 0 {
+				low = int64(r.Intn(int(g.init)))
+			}
+			add(peerEv{kind: 'I', v: uint32(low)})
+		case neg && x < 30:
+			// across zero in one WINDOW_UPDATE
+			add(peerEv{kind: 'S', i: i, v: uint32(-g.n[i] + []int64{1, 2, 100, 16384, 70000}[r.Intn(5)])})
+		case neg && x < 45:
+			// exactly to zero, then (later) positive
+			add(peerEv{kind: 'S', i: i, v: uint32(-g.n[i])})
+		case neg && x < 60 && g.n[i] < -1:
+			// part of the way: still negative
+			add(peerEv{kind: 'S', i: i, v: uint32(1 + r.Intn(int(-g.n[i]-1)))})
+		case neg && x < 80:
+			// a larger SETTINGS value: across zero, to zero, or part of the way
+			up := -g.n[i] + []int64{1, 100, 0, -1, 20000}[r.Intn(5)]
+			if up < 1 {
+				up = 1
+			}
+			if g.init+up <= maxI32 {
+				add(peerEv{kind: 'I', v: uint32(g.init + up)})
+			}
+		case x < 90:
+			add(peerEv{kind: 'C', v: uint32(1 + r.Intn(100000))})
+		default:
+			add(peerEv{kind: 'S', i: i, v: uint32(1 + r.Intn(70000))})
+		}
+	}
+	// grants covering what is left
+	for i := range g.n {
+		if g.rem[i] > 0 {
+			need := g.rem[i] - g.n[i]
+			if need > 0 && g.n[i]+need <= maxI32 {
+				add(peerEv{kind: 'S', i: i, v: uint32(need)})
+			}
+		}
+	}
+	var left int64
+	for i := range g.rem {
+		left += g.rem[i]
+	}
+	if left > 0 {
+		add(peerEv{kind: 'C', v: uint32(left - minI64(g.cn, 0))})
+	}
+	return evs
+}
+
+// negFixed: the schedule of Props/C18 `lazy_broadcast_loses_wakeup` and its variants as peer scripts.
+var negFixed = [][]peerEv{
+	{{kind: 'C', v: 100000}, {kind: 'O', v: 70000}, {kind: 'I', v: 100}, {kind: 'S', i: 0, v: 70000}, {kind: 'S', i: 0, v: 1000}},
+	{{kind: 'C', v: 100000}, {kind: 'O', v: 70000}, {kind: 'I', v: 100}, {kind: 'S', i: 0, v: 65435}, {kind: 'S', i: 0, v: 1}, {kind: 'S', i: 0, v: 5000}},
+	{{kind: 'C', v: 100000}, {kind: 'O', v: 70000}, {kind: 'I', v: 100}, {kind: 'S', i: 0, v: 30000}, {kind: 'I', v: 40000}, {kind: 'S', i: 0, v: 5000}},
+	{{kind: 'C', v: 300000}, {kind: 'O', v: 70000}, {kind: 'O', v: 90000}, {kind: 'I', v: 0}, {kind: 'S', i: 1, v: 70000}, {kind: 'S', i: 0, v: 70000}, {kind: 'S', i: 1, v: 30000}},
+	{{kind: 'I', v: 16384}, {kind: 'O', v: 40000}, {kind: 'I', v: 1}, {kind: 'C', v: 5}, {kind: 'S', i: 0, v: 16384}, {kind: 'S', i: 0, v: 30000}},
+}
+
+func runPeerNeg(c *hx.Ctx) {
+	for _, side := range []string{"client", "server"} {
+		for _, evs := range negFixed {
+			d, o := runScript(c, side, evs)
+			c.Emit("C18", "peer "+side+" "+d, o)
+			c.Count("peer.neg." + side + ".fixed")
+		}
+	}
+	n := c.N(160, 1200)
+	for k := 0; k < n; k++ {
+		side := "server"
+		if k%2 == 1 {
+			side = "client"
+		}
+		evs := genNegScript(c, side)
+		d, o := runScript(c, side, evs)
+		c.Emit("C18", "peer "+side+" "+d, o)
+		c.Count("peer.neg." + side)
+		if strings.Contains(o, ";-") {
+			c.Count("peer.neg." + side + ".stream-window-negative")
+		}
+		if strings.Contains(o, ":e") {
+			c.Count("peer.neg.body-completed")
+		}
+	}
 }
 
 func runPeer(c *hx.Ctx) {
